@@ -481,7 +481,11 @@ def slice_(ip, b, lo, hi, step, st, node=None):
     if isinstance(b, BytesV) and all(isinstance(x, Const) for x in (lo, hi, step)) and step.value is None:
         bl, bh = bytes_len(b, st)
         if bl == bh and bl != INF:
-            n = len(range(int(bl))[lo.value:hi.value])
+            r = range(int(bl))[lo.value:hi.value]
+            n = len(r)
+            if getattr(ip, 'record_slices', False) and len(b.parts) == 1 and b.parts[0][0] == 'fix':
+                st.actions.append(Action('slice', b.parts[0][2], 'slice', [Const(r.start), Const(r.stop)], None,
+                                         getattr(node, 'lineno', None), getattr(st.cur_func(), 'qualname', None)))
             return BytesV([('fix', n, d)])
     if isinstance(b, Obj) and st.heap[b.oid].kind == 'list':
         h = st.heap[b.oid]
